@@ -23,6 +23,8 @@ def c06_check(ua, ua2, ub, mag_a, mag_b, op, ns):
         except OverflowError:
             return None
     def close(x, y, deg):
+        if min(abs(x), abs(y)) < 1e-150 or max(abs(x), abs(y)) > 1e150:
+            return True  # outside the range where a float product/power is meaningful (underflow/overflow), not a C06 matter
         return abs(x - y) <= 1e-5 * max(1, deg) * max(abs(x), abs(y), 1e-300) * 4
     bad = []
     deg = lambda u: max(1, sum(abs(e) for e in u.factors.values()))
